@@ -592,6 +592,8 @@ func (in *Interp) PCall(fn Value, args []Value, handler Value) (ok bool, res []V
 // not specified usefully by 5.1 (the handler is re-entered until the C stack
 // overflows): the model returns that error as xpcall's result and tags the run.
 func (in *Interp) runHandler(handler Value, errv Value) (res []Value) {
+	in.HandlerDepth++
+	defer func() { in.HandlerDepth-- }()
 	defer func() {
 		if r := recover(); r != nil {
 			le, isLua := r.(*LuaError)
